@@ -266,7 +266,8 @@ def task_small(args):
     if kind == 'notif':
         for code in range(lo, hi):
             for sub in range(256):
-                for dl in (0, 1, 2, 20):
+                # the largest data fields a 4096-octet message can carry, for three subcodes per code
+                for dl in (0, 1, 2, 20) + ((4074, 4075) if sub in (0, 1, 255) else ()):
                     data = bytes((i * 7 + code) & 255 for i in range(dl))
                     n += 1
                     try:
@@ -346,7 +347,7 @@ def run(tier, seed):
                 'AS x hold x identifier boundary product, every hold time; reference half: every subset of 12 capability kinds in '
                 'canonical order, all permutations of subsets of <= %d, rotations and reversal beyond, unknown codes {0,3,67,200} with '
                 'value lengths 0..3, x 3 packagings x 2- and 4-octet AS; NOTIFICATION: all 65536 (code, subcode) x data length '
-                '{0,1,2,20}; ROUTE-REFRESH: 16 AFI/SAFI x reserved x both types; KEEPALIVE. distinct = (shape class, capability kinds)'
+                '{0,1,2,20}, every code x subcode {0,1,255} also with 4074 and 4075 data octets (message of 4096); ROUTE-REFRESH: 16 AFI/SAFI x reserved x both types; KEEPALIVE. distinct = (shape class, capability kinds)'
                 % (4 if tier == 'thorough' else 3),
         'samples': [{'half': 'round-trip', 'asn': c[0], 'hold': c[1], 'bgp_id': c[2], 'caps': c[3]} for c in report.pick(rt, seed, 2)]
         + [{'half': 'reference', 'caps': [cap_items()[i][0] for i in c[0]], 'packaging': c[1], 'asn': c[2]} for c in report.pick(rf, seed, 2)],
